@@ -68,6 +68,14 @@ def run_paths(keybase, fnname, thunk, witness, extra_backend=None, max_paths=32,
                     if isinstance(fm, (bool, np.bool_)):
                         results.setdefault(label, []).append((bool(fm), "concrete", None))
                         continue
+                    if label.startswith("cover:"):
+                        # reachability guard: the formula (negated hypotheses) must NOT be provable, i.e. the hypotheses are satisfiable
+                        old_esc = alg.ESCALATE[0]
+                        alg.ESCALATE[0] = False
+                        res = alg.prove(facts, fm, 3000)
+                        alg.ESCALATE[0] = old_esc
+                        results.setdefault(label, []).append((res["status"] != "unsat", f"cover: {res['status']} (must not be unsat)", fm))
+                        continue
                     res = alg.prove(facts, fm, timeout_ms)
                     results.setdefault(label, []).append((res["status"] == "unsat", f"{res['status']} {res.get('reason','')}"[:300], fm))
     except Unsupported as e:
@@ -127,3 +135,65 @@ def vnorm(x, keepdims=False):
 def apply_op(A, x):
     """A applied to every batch element of x (b, n): (b, n)"""
     return (A @ x.T).T
+
+
+def simp_under(body, var, lo, hi, facts):
+    """Sum congruence on the range: rewrite the if-then-else nodes of a summand whose condition is decided for every lo <= var < hi (under
+    the path facts).  sumf(lo, hi, lambda var. body) = sumf(lo, hi, lambda var. simp_under(body)) because the two summands agree on the range."""
+    s = z3.Solver()
+    s.set("rlimit", 2000000)
+    s.add(*[f for f in facts if not z3.is_quantifier(f)])
+    s.add(var >= lo, var < hi)
+    cache = {}
+
+    def decided(c):
+        k = c.get_id()
+        if k not in cache:
+            r = None
+            s.push()
+            s.add(z3.Not(c))
+            if s.check() == z3.unsat:
+                r = True
+            s.pop()
+            if r is None:
+                s.push()
+                s.add(c)
+                if s.check() == z3.unsat:
+                    r = False
+                s.pop()
+            cache[k] = (c, r)
+        return cache[k][1]
+    memo = {}
+
+    def walk(t):
+        k = t.get_id()
+        if k in memo:
+            return memo[k][1]
+        out = t
+        if z3.is_app(t) and not z3.is_quantifier(t) and t.num_args() > 0 and idx._occurs(var, t):
+            if t.decl().kind() == z3.Z3_OP_ITE:
+                c, a, b = t.children()
+                d = decided(c) if idx._occurs(var, c) else None
+                if d is True:
+                    out = walk(a)
+                elif d is False:
+                    out = walk(b)
+                else:
+                    out = z3.If(c, walk(a), walk(b))
+            else:
+                out = t.decl()(*[walk(x) for x in t.children()])
+        memo[k] = (t, out)
+        return out
+    return z3.simplify(walk(body))
+
+
+def psum(f, lo, hi, facts, label="l"):
+    """sumf(lo, hi, lambda l. f(l)) with the summand simplified on the range"""
+    v = idx.fresh_idx(label)
+    body = simp_under(f(v), v, lo, hi, facts)
+    return idx.SUMF(z3.simplify(lo), z3.simplify(hi), idx.canon_lambda(v, body))
+
+
+def psum_raw(f, lo, hi, label="l"):
+    v = idx.fresh_idx(label)
+    return idx.SUMF(z3.simplify(lo), z3.simplify(hi), idx.canon_lambda(v, f(v)))
